@@ -207,7 +207,8 @@ def explore_config(prop, cfg, judge, max_executions=200000, invariant=None, coll
     if invariant is not None:
         def inv(frames, trace):
             invariant(t, cfg, frames, lambda: case_for(trace))
-    ex = Explorer(call, unit_points=unit, max_executions=max_executions, invariant=inv)
+    ex = Explorer(call, unit_points=unit, max_executions=max_executions, invariant=inv,
+                  max_seconds=90 if max_executions <= 400000 else 1500)
     with quiet():
         st = ex.explore(on_complete)
     t.c['configs'] += 1
